@@ -30,7 +30,7 @@ def FLOORS(tier):
          "observe-with-ancillas": 60 if q else 2000, "op:construct-from-raw": 200 if q else 6000, "op:observe-after-cancel_top": 60 if q else 2000, "observe-stale-with-ancillas": 15 if q else 500, "op:derive-then-constraint": 10 if q else 300}
     f.update({"untouched-object-checks": 3000 if q else 10 ** 5, "sibling:shares-mapping-dict": 100, "sibling:source-of-copy": 300,
               "caller-dict-scribbled": 60, "update:same-class-model:into-empty": 20, "update:same-class-model": 60, "update:pairs": 60,
-              "update:other-class-model": 60, "ipow:exponent>=4:model-with-ancillas": 2})
+              "update:other-class-model": 60, "copy-by:times-one": 60, "copy-by:neg-neg": 60, "ipow:exponent>=4:model-with-ancillas": 2})
     for t in TYPES:
         f["type:" + t] = 150 if q else 5000
     for o in OPS:
@@ -340,9 +340,11 @@ def case(ctx, rng, idx):
             elif op == "refresh":
                 pass   # handled below
             elif op == "copy":
-                how = rng.choice(["copy", "ctor"])
+                how = rng.choice(["copy", "ctor", "times-one", "one-times", "neg-neg", "plus-zero", "over-one"])
                 desc += [how]
-                new = m.copy() if how == "copy" else T(m)
+                new = {"copy": lambda: m.copy(), "ctor": lambda: T(m), "times-one": lambda: m * 1, "one-times": lambda: 1 * m,
+                       "neg-neg": lambda: -(-m), "plus-zero": lambda: m + 0, "over-one": lambda: m / 1}[how]()
+                ctx.cat("copy-by:" + how)
             elif op == "derive":
                 how = rng.choice(["subs", "round"])
                 desc += [how]
